@@ -189,6 +189,38 @@ fn c02_extra_inputs() -> Vec<(pipe::Input, String)> {
     out
 }
 
+/// Builds the auxiliary module alone and compiles it with the harness's asserts about its types.
+pub fn aux_module_violation(space: &LayoutSpace, ps: usize, target: Target, prop: &str) -> Option<Violation> {
+    let mut t = TypeS::new("T");
+    t.fields = vec![FieldS::new("x", MTy::b("u32"))];
+    let input = to_input(&space.modules_for(&t));
+    let loc = json!({"space": "aux_module", "index": 0, "ps": ps});
+    let mk = |key: String, detail: String| Violation { key, features: vec!["auxiliary_module".into()], input: input.clone(), ps, detail, locator: loc.clone() };
+    match pipe::run(&input, ps) {
+        pipe::Verdict::Ok(b) => {
+            let mut files = b.files.clone();
+            let Some(aux) = files.get_mut("aux.rs") else {
+                return Some(mk("no_output_file".into(), format!("files: {:?}", files.keys().collect::<Vec<_>>())));
+            };
+            aux.push_str("\n// ---- appended by the verification harness ----\n");
+            aux.push_str(aux_extern_rust());
+            aux.push_str(AUX_ASSERTS);
+            match check_cases(&[RCase::new(files)], target, 1) {
+                Ok((diags, _)) if diags[0].is_empty() => None,
+                Ok((diags, _)) => {
+                    let d = &diags[0][0];
+                    let key = if d.rendered.contains("assertion failed") { "assert_failed:auxiliary_types".to_string() } else { format!("compile_error:{}", d.code) };
+                    // a compile error that is not about layout is C13's subject; C01 / C02 cannot proceed without the module
+                    Some(mk(key, format!("the auxiliary module (property {prop} uses it in every case) does not compile with its size / alignment asserts:\n{}", diags[0].iter().take(3).map(|d| d.rendered.clone()).collect::<Vec<_>>().join("\n"))))
+                }
+                Err(_) => None,
+            }
+        }
+        pipe::Verdict::Panic(p) => Some(mk("panic".into(), p)),
+        other => Some(mk("valid_input_rejected".into(), other.err_text())),
+    }
+}
+
 pub fn run(prop: &str, tier: &str, only: Option<&Value>) -> i32 {
     let mut rep = Report::new(prop, tier);
     let space = LayoutSpace::new_reduced(tier, true);
@@ -200,6 +232,21 @@ pub fn run(prop: &str, tier: &str, only: Option<&Value>) -> i32 {
         "rustc's layout of the emitted text on x86_64-unknown-linux-gnu (ps 8) and i686-pc-windows-msvc (ps 4) is ground truth".into(),
         "expected offsets come from the description via the reference model's sequential fold; the model's built-in table is validated against rustc in this run".into(),
     ];
+    if let Some(l) = only {
+        if l["space"] == "aux_module" {
+            let ps = l["ps"].as_u64().unwrap_or(8) as usize;
+            return match aux_module_violation(&space, ps, Target::for_ps(ps), prop) {
+                Some(v) => {
+                    println!("{}\n{}: {}\nreplay: still failing", v.input.render(), v.key, v.detail);
+                    1
+                }
+                None => {
+                    println!("replay: passes");
+                    0
+                }
+            };
+        }
+    }
     let only_idx = only.map(|l| (l["index"].as_u64().unwrap_or(0) as usize, l["ps"].as_u64().unwrap_or(8) as usize));
     for ps in [4usize, 8] {
         if let Some((_, p)) = only_idx {
@@ -210,6 +257,13 @@ pub fn run(prop: &str, tier: &str, only: Option<&Value>) -> i32 {
         let target = Target::for_ps(ps);
         if let Err(e) = validate_builtin_table(target) {
             rep.machinery(format!("{e:#}"));
+            return rep.finish();
+        }
+        // The auxiliary module is part of every case and is compiled as a shared file: it is judged once, on
+        // its own (its types are emitted items like any other), so that a fault in it is a verdict about the
+        // subject and not an unattributable compile error.
+        if let Some(v) = aux_module_violation(&space, ps, target, prop) {
+            rep.violation(v);
             return rep.finish();
         }
         // the space is processed in chunks so that the accepted cases of a large (thorough) space
